@@ -41,7 +41,7 @@ fn fe_u64(f: &F) -> u64 {
     u64::from_le_bytes(b[..8].try_into().unwrap())
 }
 
-fn base_config(
+pub fn base_config(
     meta: &mut ConstraintSystem<F>,
 ) -> (P2RDecompositionConfig, Vec<Column<Advice>>) {
     let advice: Vec<Column<Advice>> = (0..NB_ARITH_COLS).map(|_| meta.advice_column()).collect();
@@ -63,7 +63,7 @@ fn base_config(
     )
 }
 
-fn native_gadget(config: &P2RDecompositionConfig) -> (NG, P2RDecompositionChip<F>) {
+pub fn native_gadget(config: &P2RDecompositionConfig) -> (NG, P2RDecompositionChip<F>) {
     let native_chip = NativeChip::new(config.native_config(), &());
     let core = P2RDecompositionChip::new(config, &8usize);
     (NativeGadget::new(core.clone(), native_chip), core)
@@ -213,6 +213,130 @@ pub fn run_parse_forged(a: &Automaton, input: &[u8], k: u32, states: &[u64], out
 }
 
 // ---------------------------------------------------------------------------------------------
+// Several automata in one table (NativeAutomaton::from_collection)
+// ---------------------------------------------------------------------------------------------
+
+/// The map given to `AutomatonChip::configure`: keys `0..n` inserted in order.
+pub fn coll_map(automata: &[Automaton]) -> FxHashMap<usize, Automaton> {
+    let mut m: FxHashMap<usize, Automaton> = FxHashMap::default();
+    for (i, a) in automata.iter().enumerate() {
+        m.insert(i, a.clone());
+    }
+    m
+}
+
+/// Iteration order of the map (the order in which `from_collection` hands out the offsets).
+pub fn coll_order(automata: &[Automaton]) -> Vec<usize> {
+    coll_map(automata).iter().map(|(k, _)| *k).collect()
+}
+
+#[derive(Clone)]
+pub struct CollCircuit {
+    pub automata: Vec<Automaton>,
+    pub index: usize,
+    pub input: Vec<u8>,
+    pub out: Arc<Mutex<Vec<u64>>>,
+}
+
+impl Circuit<F> for CollCircuit {
+    type Config = (P2RDecompositionConfig, AutomatonConfig<usize, F>);
+    type FloorPlanner = SimpleFloorPlanner;
+    type Params = Vec<Automaton>;
+
+    fn without_witnesses(&self) -> Self {
+        self.clone()
+    }
+    fn params(&self) -> Self::Params {
+        self.automata.clone()
+    }
+    fn configure(_meta: &mut ConstraintSystem<F>) -> Self::Config {
+        unreachable!()
+    }
+    fn configure_with_params(meta: &mut ConstraintSystem<F>, params: Self::Params) -> Self::Config {
+        let (p2r, advice) = base_config(meta);
+        let cfg = AutomatonChip::configure(
+            meta,
+            &(advice[..NB_AUTOMATA_COLS].try_into().unwrap(), coll_map(&params)),
+        );
+        (p2r, cfg)
+    }
+    fn synthesize(&self, config: Self::Config, mut layouter: impl Layouter<F>) -> Result<(), Error> {
+        let (ng, core) = native_gadget(&config.0);
+        let chip = AutomatonChip::<usize, F>::new(&config.1, &ng);
+        let vals: Vec<Value<u8>> = self.input.iter().map(|b| Value::known(*b)).collect();
+        let input: Vec<AssignedByte<F>> = ng.assign_many(&mut layouter, &vals)?;
+        let markers: Vec<AssignedNative<F>> = chip.parse(&mut layouter, &self.index, &input)?;
+        let mut got = vec![];
+        for m in &markers {
+            m.value().map(|v| got.push(fe_u64(v)));
+        }
+        *self.out.lock().unwrap() = got;
+        core.load(&mut layouter)?;
+        chip.load(&mut layouter)
+    }
+}
+
+/// `AutomatonChip::parse(&index, input)` in a circuit configured with all of `automata`, and the
+/// structure read back from the mock prover.
+pub fn run_coll_traced(
+    automata: &[Automaton],
+    index: usize,
+    input: &[u8],
+    k: u32,
+) -> (Verdict, Option<Result<crate::trace::ParseTrace, String>>) {
+    let out = Arc::new(Mutex::new(vec![]));
+    let circuit = CollCircuit {
+        automata: automata.to_vec(),
+        index,
+        input: input.to_vec(),
+        out: out.clone(),
+    };
+    match mzkh::catch(|| MockProver::run(k, &circuit, vec![vec![], vec![]])) {
+        Err(p) => (Verdict::Panic(p), None),
+        Ok(Err(_)) => (Verdict::Stuck, None),
+        Ok(Ok(prover)) => {
+            let nb_fixed = prover.fixed().len() - prover.selectors().len();
+            let tr = mzkh::catch(|| crate::trace::extract(&prover, nb_fixed))
+                .unwrap_or_else(|p| Err(format!("panic {p}")));
+            match prover.verify() {
+                Ok(()) => (Verdict::Ok(out.lock().unwrap().clone()), Some(tr)),
+                Err(_) => (Verdict::Unsat, Some(tr)),
+            }
+        }
+    }
+}
+
+/// Forged witness in a collection circuit (see `run_parse_forged`).
+pub fn run_coll_forged(
+    automata: &[Automaton],
+    index: usize,
+    input: &[u8],
+    k: u32,
+    states: &[u64],
+    outs: &[u64],
+) -> Option<bool> {
+    use midnight_proofs::dev::CellValue;
+    let out = Arc::new(Mutex::new(vec![]));
+    let circuit = CollCircuit {
+        automata: automata.to_vec(),
+        index,
+        input: input.to_vec(),
+        out,
+    };
+    let mut prover = mzkh::catch(|| MockProver::run(k, &circuit, vec![vec![], vec![]])).ok()?.ok()?;
+    let nb_fixed = prover.fixed().len() - prover.selectors().len();
+    let tr = mzkh::catch(|| crate::trace::extract(&prover, nb_fixed)).ok()?.ok()?;
+    let adv = prover.verif_advice_mut();
+    for (i, s) in states.iter().enumerate() {
+        adv[tr.state_col][tr.r0 + i] = CellValue::Assigned(F::from(*s));
+    }
+    for (i, o) in outs.iter().enumerate() {
+        adv[tr.out_col][tr.r0 + i] = CellValue::Assigned(F::from(*o));
+    }
+    Some(prover.verify().is_ok())
+}
+
+// ---------------------------------------------------------------------------------------------
 // Base64
 // ---------------------------------------------------------------------------------------------
 
@@ -299,5 +423,28 @@ pub fn run_b64(input: &[u8], mode: B64Mode, k: u32) -> B64Verdict {
             Ok(()) => B64Verdict::Ok(out.lock().unwrap().clone()),
             Err(_) => B64Verdict::Unsat,
         },
+    }
+}
+
+/// Like `run_b64`, and the structure of the Base64 lookup read back from the mock prover.
+pub fn run_b64_traced(input: &[u8], mode: B64Mode, k: u32) -> (B64Verdict, Option<Result<crate::trace::B64Trace, String>>) {
+    let out = Arc::new(Mutex::new(vec![]));
+    let circuit = B64Circuit {
+        input: input.to_vec(),
+        mode,
+        out: out.clone(),
+    };
+    match mzkh::catch(|| MockProver::run(k, &circuit, vec![vec![], vec![]])) {
+        Err(p) => (B64Verdict::Panic(p), None),
+        Ok(Err(_)) => (B64Verdict::Stuck, None),
+        Ok(Ok(prover)) => {
+            let nb_fixed = prover.fixed().len() - prover.selectors().len();
+            let tr = mzkh::catch(|| crate::trace::extract_b64(&prover, nb_fixed))
+                .unwrap_or_else(|p| Err(format!("panic {p}")));
+            match prover.verify() {
+                Ok(()) => (B64Verdict::Ok(out.lock().unwrap().clone()), Some(tr)),
+                Err(_) => (B64Verdict::Unsat, Some(tr)),
+            }
+        }
     }
 }
